@@ -55,8 +55,8 @@ PROPS = {
             'technique': 'Verus postcondition r == decode_out(layout, mods, mode, ev) on the real process_keyevent, generic in the layout via a ghost trait member + verified clients for mode/layout changes'},
     'C19': {'denotations': 'tables', 'lemmas': ['c19'], 'cellgens': ['injectivity'], 'assume': BASE + [A_PRIV], 'kani': [], 'design': 'DESIGN.md section 3, C19',
             'technique': 'Verus: injectivity of the six derived table denotations via verified inverse maps (hint from the real code, checked by Verus); make/break pairing lemmas over the automaton contracts + verified clients'},
-    'C17': {'needs_invariants': False, 'denotations': 'wrappers', 'lemmas': ['c17'], 'cellgens': ['anylayout_cells'], 'assume': BASE + [A_CHAR, A_PRED, A_KANI], 'kani': ['char_from_u8_is_cast', 'predicates_equal_copies'], 'design': 'DESIGN.md section 3, C17',
+    'C17': {'support_fns': r'^EventDecoder::process_keyevent', 'needs_invariants': False, 'denotations': 'wrappers', 'lemmas': ['c17'], 'cellgens': ['anylayout_cells'], 'assume': BASE + [A_CHAR, A_PRED, A_KANI], 'kani': ['char_from_u8_is_cast', 'predicates_equal_copies'], 'design': 'DESIGN.md section 3, C17',
             'technique': 'Verus lemmas per variant and wrapper form over the denotations of the two real AnyLayout::map_keycode impls (derived from their bodies, proved equal to them) + verified client'},
-    'C18': {'lemmas': ['c18'], 'assume': BASE + [A_PRIV, A_COUNT, A_FROMBOOL, A_KANI], 'kani': ['count_ones_is_bit_sum', 'int_from_bool_is_cast'], 'design': 'DESIGN.md section 3, C18',
+    'C18': {'support_fns': r'^(EventDecoder|Ps2Decoder|ScancodeSet1|ScancodeSet2|trait ScancodeSet|Default for )', 'lemmas': ['c18'], 'assume': BASE + [A_PRIV, A_COUNT, A_FROMBOOL, A_KANI], 'kani': ['count_ones_is_bit_sum', 'int_from_bool_is_cast'], 'design': 'DESIGN.md section 3, C18',
             'technique': 'Verus frame postconditions on all nine Keyboard methods (generic in S, L) + verified simulation clients: Keyboard vs three separate stages'},
 }
